@@ -2,6 +2,7 @@
 import json, os, re
 import vlib, runcorr, front, progcheck, noise, nlast, genwf
 
+NEEDS_DEBUG = True
 COQ_TARGETS = ["props/C05.vo", "corr/CorrFront.vo", "corr/CorrRun.vo"]
 RULE = ("input classes of the property, each run through the real eval in a worker process (address-space limit, wall "
         "clock limit per batch, instruction budget) and classified: value / one of the five error kinds / budget are "
@@ -64,6 +65,16 @@ def run(ctx, log):
     # the same small programs at every size around the widths the implementation encodes things in (closed-form results)
     progcheck.run_scale(ctx, log, ['constants', 'locals', 'args', 'statements', 'nesting', 'rtnest', 'objects'])
     progcheck.run_code_boundary(ctx, log)
+    # every special value (NaN, infinities, signed zero, range ends, empty and nested things, null, functions) through every
+    # operator, prefix operator, builtin and index position: a value or an error value, never a crash
+    sv = progcheck.special_values_family()
+    for prof in ("release", "debug"):
+        so = vlib.nlh("eval", ["5000 " + vlib.hexs(x) for x in sv], tag="c05sv", profile=prof, timeout=900)
+        for x, o in zip(sv, so):
+            ctx.seen(("special", x, prof))
+            ctx.count("special-values")
+            if not (o.startswith("OK") or o.startswith("ERR") or o.startswith("BUDGET")):
+                ctx.violate("an operation on a special value crashed instead of giving a value or an error value (%s build)" % prof, source=x, observed=o[:300])
     rng = ctx.rng
     vocab = noise.vocabulary()
     findings = vlib.known_findings()
